@@ -792,3 +792,162 @@ def stale_count_rule(res, prog, rule, prefix, what):
     res.obligations += 1
     res.discharged += 1
     res.rule(rule, n, 1, "%s: functions scanned for decisions on a counter read before the call that changes it" % what)
+
+
+# ---------------------------------------------------------------------------------------------------------------------------
+# two fields that describe one thing (a table and the log2 of its size) change together
+
+def coupled_store_windows(prog, owner, buf_field, size_field):
+    """yields (fn, first_block, call_block, callee, second_block): in a `&mut self` method of `owner` that replaces the whole of
+    `self.<buf_field>` and stores `self.<size_field>`, a call that is handed `self` sits between the two stores on some path: the
+    callee sees a table whose recorded size is that of the other table."""
+    def reach(f, src):
+        seen, st = set(), [x for x in f.succs(src) if not f.blocks[x].cleanup]
+        while st:
+            x = st.pop()
+            if x in seen:
+                continue
+            seen.add(x)
+            st.extend(y for y in f.succs(x) if not f.blocks[y].cleanup)
+        return seen
+    for f in [x for x in prog.fns.values() if not x.promoted and x.owner == owner and x.argc >= 1 and (x.local_ty(1) or "").startswith("&mut")]:
+        def whole_store_blocks(field):
+            out = set()
+            for b in f.blocks:
+                if b.cleanup:
+                    continue
+                for st in b.stmts:
+                    if st[0] == "=" and not isinstance(st[1], int) and st[1][0] == 1 and [e[0] for e in st[1][1]] == ["*", "."] and st[1][1][1][2] == field:
+                        out.add(b.idx)
+                t = b.term
+                if t[0] == "call" and (t[1].get("callee") or "").rsplit("::", 1)[-1] in ("replace", "swap", "take"):
+                    for a in t[1]["args"]:
+                        pl = ir.op_place(a)
+                        l = pl if isinstance(pl, int) else (pl[0] if pl is not None else None)
+                        for _hop in range(3):
+                            d = f.single_def(l) if l is not None else None
+                            if not (d and d[1] != "t" and d[2] == "assign"):
+                                break
+                            rv = f.blocks[d[0]].stmts[d[1]][2]
+                            if rv[0] == "ref" and rv[1] == "mut" and not isinstance(rv[2], int) and rv[2][0] == 1 and [e[0] for e in rv[2][1]] == ["*", "."] and rv[2][1][1][2] == field:
+                                out.add(b.idx)
+                                break
+                            if rv[0] == "ref" and not isinstance(rv[2], int) and [e[0] for e in rv[2][1]] == ["*"]:
+                                l = rv[2][0]        # a reborrow `&mut *_x`: look at what _x borrows
+                                continue
+                            break
+            return out
+        sb, ss = whole_store_blocks(buf_field), whole_store_blocks(size_field)
+        if not sb or not ss:
+            continue
+        self_calls = []
+        for b, site in f.calls():
+            cal = site.get("callee") or ""
+            if cal not in prog.fns:
+                continue
+            for a in site["args"]:
+                pl = ir.op_place(a)
+                if pl is None:
+                    continue
+                l = pl if isinstance(pl, int) else pl[0]
+                hit = (l == 1 and isinstance(pl, int))
+                d = f.single_def(l)
+                if d and d[1] != "t" and d[2] == "assign":
+                    rv = f.blocks[d[0]].stmts[d[1]][2]
+                    if rv[0] == "ref" and not isinstance(rv[2], int) and rv[2][0] == 1 and [e[0] for e in rv[2][1]] == ["*"]:
+                        hit = True
+                if hit:
+                    self_calls.append((b, cal))
+                    break
+        for e in sorted(sb | ss):
+            later = (ss if e in sb else set()) | (sb if e in ss else set())
+            re_ = reach(f, e)
+            for l_ in sorted(later):
+                if l_ == e or l_ not in re_:
+                    continue
+                for (c, cal) in self_calls:
+                    if c in (e, l_) or c not in re_:
+                        continue
+                    if l_ in reach(f, c) and not (e in reach(f, l_) and c in reach(f, l_)):
+                        yield (f, e, c, cal, l_)
+
+
+def coupled_store_rule(res, prog, rule, owner, buf_field, size_field):
+    adt = prog.adts.get(owner)
+    names = [x[0] for v in (adt or {}).get("variants", []) for x in v.get("fields", [])]
+    res.obligations += 1
+    if buf_field not in names or size_field not in names:
+        res.undecided += 1
+        return 0
+    seen = set()
+    for (f, e, c, cal, l_) in coupled_store_windows(prog, owner, buf_field, size_field):
+        key = "%s|%s|%s" % (rule, f.id, cal.rsplit("::", 1)[-1])
+        if key in seen:
+            continue
+        seen.add(key)
+        res.violate(rule, key, "%s replaces `%s` and stores `%s` with a call of %s (which receives self) in between: the callee works on a table whose "
+                    "recorded size belongs to the other table" % (f.id, buf_field, size_field, cal), f.id, f.blocks[c].term[1].get("span"))
+    if not seen:
+        res.discharged += 1
+    return 1
+
+
+# ---------------------------------------------------------------------------------------------------------------------------
+# value of a re-assigned local at a program point, for one concrete environment
+
+def reaching_values(prog, fn, s, target, locals_, env, cap=400):
+    """{local: value} for the locals whose last assignment on every feasible acyclic path from the entry to block `target` gives one
+    and the same evaluable value under env.  Branch decisions that evaluate under env prune the paths; the others fork."""
+    from .. import formula
+    locals_ = set(locals_)
+    defs = {}
+    for l in locals_:
+        for d in fn.defs().get(l, []):
+            defs.setdefault(d[0], []).append((d[1], l, d[2]))
+    results = []
+    count = [0]
+
+    def step(b, seen, last):
+        count[0] += 1
+        if count[0] > cap:
+            return False
+        last = dict(last)
+        for (i, l, kind) in sorted(defs.get(b, []), key=lambda x: (x[0] == "t", x[0] if x[0] != "t" else 0)):
+            last[l] = (b, i, kind)
+        if b == target:
+            results.append(last)
+            return True
+        t = fn.blocks[b].term
+        succs = [x for x in fn.succs(b) if not fn.blocks[x].cleanup and x not in seen]
+        if t[0] == "switch":
+            try:
+                v = formula.evaluate(s.at(b, "t").operand(t[1]), env)
+            except (formula.Uneval, TypeError, IndexError, ZeroDivisionError):
+                v = None
+            if isinstance(v, (int, bool)) and not isinstance(v, tuple):
+                tg = [tgt for val, tgt in t[2] if val == int(v)]
+                succs = [x for x in succs if x == (tg[0] if tg else t[3])]
+        for x in succs:
+            if not step(x, seen | {x}, last):
+                return False
+        return True
+    if not step(0, {0}, {}):
+        return {}
+    out = {}
+    for l in locals_:
+        vals = set()
+        ok = True
+        for last in results:
+            d = last.get(l)
+            if d is None or d[2] != "assign" or d[1] == "t":
+                ok = False
+                break
+            try:
+                vals.add(repr(formula.evaluate(s.at(d[0], d[1]).rvalue(fn.blocks[d[0]].stmts[d[1]][2]), env)))
+            except (formula.Uneval, TypeError, IndexError, ZeroDivisionError):
+                ok = False
+                break
+        if ok and len(vals) == 1 and results:
+            d = results[0][l]
+            out[l] = formula.evaluate(s.at(d[0], d[1]).rvalue(fn.blocks[d[0]].stmts[d[1]][2]), env)
+    return out
